@@ -162,6 +162,10 @@ impl McSystem {
         self.depth
     }
 
+    pub(crate) fn event_ordering_mode(&self) -> EventOrderingMode {
+        self.event_ordering_mode.clone()
+    }
+
     fn add_events(&mut self, events: Vec<McEvent>) {
         for mut event in events {
             if let McEvent::MessageReceived { msg, src, dst, .. } = event {
